@@ -111,4 +111,15 @@ PROPS = {
         "assumptions": ["number of used symbols <= 2^limit (true for the alphabets the encoder uses: 16 <= 2^7, 256/280 <= 2^15)", "frequency total below 2^32 (pixel counts are at most 2^28)"],
         "partial": ["C14.full (final lengths/codes satisfy every clause for every histogram) stated, not yet proved as one theorem; proved so far: tree_kraft, tree_lengths_pos, limit_move, lt2_signalled, ge2_not_single"],
     },
+    "C05": {
+        "technique": "Lean 4 raster-order induction (alpha reconstruction = container-spec rule for all sizes/filters/deltas), composition with C13's frame theorem; hook- and file-level correspondence with libwebp as oracle",
+        "level_text": "Theorems: for every width, height, filter (all four) and delta plane the decoder's sequential in-place loop over the interleaved RGBA buffer leaves exactly the container specification's reconstruction in the alpha bytes (C05.alpha_plane_eq) and touches no colour byte; the ALPH info byte is decoded correctly for all 256 values; composed with C13: every pixel of a lossy still with alpha holds libwebp's BT.601 conversion of luma (x,y)/chroma (x/2,y/2) of the reconstructed planes and the specified alpha (C05.still_rgba), for every size parity. Tied to the code on every run through get_alpha_predictor and read_alpha_chunk hooks (all filters, 1-pixel rows/columns, raw and VP8L-compressed bodies, all info bytes) and through whole VP8X+ALPH+VP8 files whose alpha is compared with the encoded plane and with libwebp, and whose colour bytes are compared with libwebp's sampler applied to the crate's own planes.",
+        "level_note": "Trusted: Lean kernel + standard axioms; the VP8 planes and the VP8L-compressed alpha payload are decoded by code that is C02's / C01's subject (this property takes the reconstructed planes as given, as its statement does); transcription of the container specification's ALPH rules.",
+        "design_ref": "DESIGN.md section 4, C05",
+        "trusted_base": COMMON_TB + [
+            "modelled, not verified: extended.rs get_alpha_predictor and the info-byte part of read_alpha_chunk; the alpha loops of decoder.rs read_image/read_frame; vp8.rs fill_rgba (via C13's model)",
+            "specification: AlphaSpec.reconstruct (container specification, ALPH filtering methods with the stated edge rules); libwebp (WebPDecode without fancy upsampling, WebPSamplers) as executable reference",
+        ],
+        "assumptions": ["plane sizes as the decoders produce them; delta plane of width*height bytes (read_alpha_chunk reads exactly that many or fails)"],
+    },
 }
